@@ -30,6 +30,11 @@ func runC04(e *env) {
 	c06RunMany(e, "C04.run", 250*e.scale, 12, func(i int, r *rng) c06Opts {
 		return c06Opts{nNodes: 2 + r.intn(2), mult: 2, lit: 3600, gcOld: true, nEvents: 12 + r.intn(24), removal: 30, startDelta: 3, xWeight: 1}
 	})
+	// retention reached with real time (2 s): the tombstone is collected at the peer, then the registrations that
+	// predate the removal are delivered again
+	c06RunMany(e, "C04.run", 3, 17, func(i int, r *rng) c06Opts {
+		return c06Opts{nNodes: 2 + i%2, mult: 1 + i, lit: 2, gcOld: true, ni: i == 2, script: []string{"gcresurrect", "gcsilent", "gcresurrect"}[i]}
+	})
 	// cross-second stream: real sleeps between heartbeat and removal / re-registration
 	c06RunMany(e, "C04.run", 16*e.scale, 13, func(i int, r *rng) c06Opts {
 		return c06Opts{nNodes: 2 + r.intn(2), mult: 2, lit: 300, allowSl: true, nEvents: 36, removal: 40, startDelta: 2, xWeight: 1}
